@@ -336,6 +336,12 @@ def rule_error_tables(ctx):
     st = [s for s in cdd.stores(attr="coordinator_id")]
     sr = [n for n in cdd.calls(attr="set_result") if unparse(n.ast.func.value) == "self._coordinator_dead_fut"]
     ctx.ob(R, fdd, fdd.node, len(st) == 1 and const_value(st[0].stmt.value) is None and len(sr) == 1, "coordinator_dead does not forget the coordinator and wake the coordination loop", text="coordinator-dead-def")
+    # ... whenever a coordinator is known: the only admissible guard is `coordinator_id is (not) None` -- node id 0 is a coordinator like any other
+    from ..rulekit import must_facts as _mf6
+    okg = bool(st) and not any(t.kind == "test" and isinstance(t.ast, (ast.Name, ast.Attribute)) and unparse(t.ast).endswith("coordinator_id") for t in cdd.nodes) and \
+        all(any(a[0].endswith("coordinator_id") and a[1] == "is not" and a[2] == "None" for a in (_mf6(cdd)[x] or ())) or cdd.dominates(cdd.entry, x) and not any(t.kind == "test" for t in cdd.nodes) for x in st)
+    ctx.ob(R, fdd, fdd.node, okg, "coordinator_dead is guarded by something other than `coordinator_id is not None` (a truthiness test skips the coordinator with node id 0: it is never "
+                                 "marked dead and never rediscovered)", text="coordinator-dead-guard")
     # _send_req marks the coordinator dead on transport errors
     fs = ctx.fn(f"{GC}._send_req")
     cs = ctx.cfg(fs)
@@ -552,5 +558,7 @@ def run(ctx):
     rule_coordination_loop(ctx)
     rule_snapshot(ctx)
     rule_rejoin_revalidates(ctx)
+    from .common import rule_instance_state
+    rule_instance_state(ctx, ("aiokafka.consumer.",))
     rep.nd("convergence / 'no further rebalance once quiet' (liveness over fault sequences)")
     rep.nd("coverage of every partition by the union of assignments (depends on the assignors, C14)")
